@@ -207,8 +207,13 @@ func init() {
 		}
 		return retM(r, m.z) + fmt.Sprint(ok)
 	})
-	bop("SetBytes", "z", "z", func(s *plan.BigStep, a *aArgs) string { return retA(a.z.SetBytes(hexBytes(s.S)), a.z) },
-		func(s *plan.BigStep, m *mArgs) string { return retM(m.z.SetBytes(hexBytes(s.S)), m.z) })
+	bop("SetBytes", "z", "z", func(s *plan.BigStep, a *aArgs) string {
+		buf := hexBytes(s.S)
+		return retA(a.z.SetBytes(buf), a.z) + fmt.Sprintf(" %x", buf) // the caller's bytes stay as they were
+	}, func(s *plan.BigStep, m *mArgs) string {
+		buf := hexBytes(s.S)
+		return retM(m.z.SetBytes(buf), m.z) + fmt.Sprintf(" %x", buf)
+	})
 	bop("SetBits", "z", "z", func(s *plan.BigStep, a *aArgs) string { return retA(a.z.SetBits(wordsOf(s.S)), a.z) },
 		func(s *plan.BigStep, m *mArgs) string { return retM(m.z.SetBits(wordsOf(s.S)), m.z) })
 	bop("SetMathBigInt", "zx", "z", func(s *plan.BigStep, a *aArgs) string {
@@ -329,17 +334,19 @@ func init() {
 			return []byte(t)
 		}
 		bop(name, "z", "z", func(s *plan.BigStep, a *aArgs) string {
-			err := fa(a.z, get(s))
+			in := get(s)
+			err := fa(a.z, in)
 			if err != nil {
 				a.z.SetInt64(0)
 			}
-			return fmt.Sprint(err != nil)
+			return fmt.Sprint(err != nil, " ", string(in)) // input bytes are not the decoder's to change
 		}, func(s *plan.BigStep, m *mArgs) string {
-			err := fm(m.z, get(s))
+			in := get(s)
+			err := fm(m.z, in)
 			if err != nil {
 				m.z.SetInt64(0)
 			}
-			return fmt.Sprint(err != nil)
+			return fmt.Sprint(err != nil, " ", string(in))
 		})
 	}
 	rawdec("RawUnmarshalJSON", rawJSON, false, (*apd.BigInt).UnmarshalJSON, (*big.Int).UnmarshalJSON)
